@@ -86,6 +86,9 @@ pub open spec fn sym_globals_kept(a: SymbolTable, b: SymbolTable) -> bool {
 }
 /// the name is found in the CURRENT context (then its slot lies below the size that context reports: O02.slot)
 pub open spec fn sym_in_current(t: SymbolTable, name: Seq<char>) -> bool { ctx_resolve(t.contexts@.last(), name) is Some }
+/// number of names declared (in all open scopes) in the current context; the scope its symbols get
+pub open spec fn sym_count(t: SymbolTable) -> int { flat_len(ctx_view(t.contexts@.last())) as int }
+pub open spec fn sym_cur_scope(t: SymbolTable) -> Scope { t.contexts@.last().scope }
 /// every context but the current one is untouched
 pub open spec fn sym_others_same(a: SymbolTable, b: SymbolTable) -> bool {
     b.contexts@.len() == a.contexts@.len() && b.contexts@.drop_last() =~= a.contexts@.drop_last()
